@@ -20,6 +20,21 @@ BODY = [
     ("required-length-after-optional", '<field name="o" type="char" optional="true"/><length name="n" type="char"/><field name="s" type="string" length="n"/>'),
     ("required-after-optional-in-case", '<field name="k" type="char"/><switch field="k"><case value="1"><field name="o" type="char" optional="true"/>'
                                         '</case></switch><field name="r" type="char"/>'),
+    ("required-in-case-after-optional-before-switch",
+     '<field name="k" type="char"/><field name="o" type="char" optional="true"/><switch field="k"><case value="1">'
+     '<field name="x" type="char"/></case></switch>'),
+    ("required-array-in-case-after-optional-before-switch",
+     '<field name="k" type="char"/><field name="o" type="string" optional="true"/><switch field="k"><case value="1">'
+     '<field name="y" type="char" optional="true"/></case><case default="true"><array name="x" type="char" length="2"/></case></switch>'),
+    ("required-length-in-case-after-optional-before-switch",
+     '<field name="k" type="char"/><field name="o" type="char" optional="true"/><switch field="k"><case value="1">'
+     '<length name="n" type="char"/><field name="s" type="string" length="n"/></case></switch>'),
+    ("required-in-nested-case-after-optional",
+     '<field name="k" type="char"/><field name="o" type="char" optional="true"/><switch field="k"><case value="1">'
+     '<field name="j" type="char" optional="true"/><switch field="j"><case value="2"><field name="x" type="char"/></case></switch>'
+     '</case></switch>'),
+    ("in-case-after-dummy-in-earlier-case-chain",
+     '<field name="k" type="char"/><switch field="k"><case value="1"><dummy type="char">1</dummy><field name="x" type="char"/></case></switch>'),
     ("after-dummy", '<dummy type="char">1</dummy><field name="a" type="char"/>'),
     ("dummy-after-dummy", '<dummy type="char">1</dummy><dummy type="char">1</dummy>'),
     ("after-dummy-in-case", '<field name="k" type="char"/><switch field="k"><case value="1"><dummy type="char">1</dummy></case></switch>'
